@@ -55,8 +55,8 @@ def _key(x):
 
 def diff_kind(expected, observed):
     """None when equal, else one of order / missing / extra / value."""
-    if expected == observed:
-        return None
+    if expected == observed and [_key(x) for x in expected] == [_key(x) for x in observed]:
+        return None          # equal AND the same repr: 0.0 vs -0.0, 1 vs 1.0 vs True are told apart
     ce, co = Counter(map(_key, expected)), Counter(map(_key, observed))
     if ce == co:
         return 'order'
